@@ -120,8 +120,13 @@ add("C05",
     "after the same history with every earlier lookup erased — by the invariant 'every cache entry equals the uncached answer now and all its specifications are "
     "subscribed' (inv_step, inv_run), lookup_transparent, run_reg_sro, wf_erase. The integrated World model (three caches, push and verifying flavours, "
     "declarations, weak tables, super specifications) is compared with both twins on histories interleaving ten mutation kinds with all nine entry points, and the "
-    "statement itself is evaluated on the real code: every lookup is also put to a registry chain that received the same mutations and never performed a lookup.",
-    "stated_not_proved: refinement World -> ZI.Cache (invariants I3-I5: sub-registry notification / generation snapshots / ro = C3 of current bases). "
+    "statement itself is evaluated on the real code: every lookup is also put to a registry chain that received the same mutations and never performed a lookup. "
+    "ON THE VALIDATED REGISTRY MODEL ITSELF (ZI.Registry, the executable compared with adapter.py every run; notifying flavour, static specification graph): "
+    "C05_registry_cacheOk (after ANY history of registry creations, __bases__ reassignments at any level, rebuild(), register / unregister / subscribe / "
+    "unsubscribe and lookups, every entry of each of the three caches of every registry equals the uncached answer on the current state), "
+    "C05_registry_transparent_lookup / _lookupAll / _subscriptions (a lookup answers exactly the uncached computation) and C05_registry_erase (the answer after a "
+    "history = the answer after the same history with every lookup erased; well-formedness of the erased history is proved, not assumed).",
+    "stated_not_proved: refinement World -> ZI.Cache for specification-graph changes and for the generation-checking flavour (I4 generation snapshots). "
     "Guard G-provided (the __iro__ of an interface currently used as *provided* is not changed: the code documents the missing invalidation as a TODO and the "
     "statement speaks of required specifications).",
     "Lean 4 proof (cache invariant over histories on an abstract machine) + differential correspondence of the integrated model + never-queried-twin oracle on the real code", "6/C05")
@@ -192,8 +197,12 @@ add("C08",
     "exactly what the forward _lookup walk returns for that name; a name is absent exactly when lookup returns the default), with get?_foldl_set and "
     "foldl_reverse_overlay (folding overlays over a reversed enumeration lets the FIRST forward binding win). lookup1 / queryAdapter / adapter_hook / "
     "queryMultiAdapter / names / subscribers are defined in the model through lookup / lookupAll / subscriptions and are called cold and warm in random order on "
-    "both twins, compared with the model and cross-checked against each other.",
-    "stated_not_proved: agreement of the object-level entry points in every cache state as a theorem (needs the C05 refinement).",
+    "both twins, compared with the model and cross-checked against each other. C08_registry_lookupAll_agrees: in EVERY state reachable by a history of registry "
+    "operations and lookups (any cache state, any chain of registries, notifying flavour) `dict(lookupAll(req, p)).get(name)` is exactly `lookup(req, p, name)` — "
+    "uncachedLookupAll_get lifts the per-registry statement along `ro` (first registry with an answer wins), the leaves invariant (every name bound once) is "
+    "carried over histories with no guard, and the C05 cache invariant removes the caches.",
+    "stated_not_proved: the object-level entry points (queryAdapter, adapter_hook, queryMultiAdapter, subscribers) are defined in the model through lookup / "
+    "lookupAll / subscriptions; their agreement for the generation-checking flavour is evaluated, not proved.",
     "Lean 4 proof (lookupAll = name-indexed family of lookup answers) + differential correspondence + cross-entry-point oracle", "6/C08")
 add("C09",
     "Theorems on the nested containers of the registry model that is compared with the real code (ZI.Registry.Level, Level.update = the create-and-descend walk "
